@@ -3,6 +3,7 @@ use std::fs;
 use std::path::{Path, PathBuf};
 
 use ast::ast;
+use diagnostics::{Diagnostic, Diagnostics, Severity, Stage};
 
 use crate::hir::SourceFileAst;
 use crate::pipeline::compile_error;
@@ -53,6 +54,26 @@ fn same_file(a: &Path, b: &Path) -> bool {
     match (a.canonicalize(), b.canonicalize()) {
         (Ok(a), Ok(b)) => a == b,
         _ => a == b,
+    }
+}
+
+/// Parser diagnostics carry byte ranges only and the caller renders them against the
+/// entry file's text. For any other file of the package the positions are resolved here,
+/// where the text they refer to is at hand, and the file is named in the message.
+fn located_in(err: CompilationError, path: &Path, src: &str) -> CompilationError {
+    let CompilationError::Parser { diagnostics } = err else {
+        return err;
+    };
+    let mut located = Diagnostics::new();
+    for message in parser::format_parser_diagnostics(&diagnostics, src) {
+        located.push(Diagnostic::new(
+            Stage::Parser,
+            Severity::Error,
+            format!("{}: {}", path.display(), message),
+        ));
+    }
+    CompilationError::Parser {
+        diagnostics: located,
     }
 }
 
@@ -121,7 +142,7 @@ fn load_package(
         }
         let src = fs::read_to_string(&path)
             .map_err(|err| compile_error(format!("failed to read {}: {}", path.display(), err)))?;
-        let ast = parse_ast_file(&path, &src)?;
+        let ast = parse_ast_file(&path, &src).map_err(|err| located_in(err, &path, &src))?;
         if let Some(existing) = &package_name {
             if &ast.package.0 != existing {
                 return Err(compile_error(format!(
